@@ -4,8 +4,12 @@
 package main
 
 import (
+	"fmt"
 	"io"
 	"log"
+	"os"
+	"os/exec"
+	"strings"
 
 	"qchen.fun/fatchoy"
 	. "verifharness/common"
@@ -46,9 +50,52 @@ func runIDSet(ops Sx) Sx {
 	return ListOf(obs)
 }
 
+// observe makes the calls the property speaks about for one (service, instance) pair
+func observe(s uint8, i uint16) (id fatchoy.NodeID, str string, parsedOK bool, parsed fatchoy.NodeID) {
+	id = fatchoy.MakeNodeID(s, i)
+	str = id.String()
+	panicked, _ := Catch(func() { parsed = fatchoy.MustParseNodeID(str) })
+	return id, str, !panicked, parsed
+}
+
+// firstInProcess makes the same calls as the very first use of the package in a fresh process
+// (this binary re-executed with VERIF_C20_FIRST=s,i): memo tables, pools and other package-level
+// state are then in their initial condition
+func firstInProcess(s uint8, i uint16) Sx {
+	cmd := exec.Command(os.Args[0])
+	cmd.Env = append(os.Environ(), fmt.Sprintf("VERIF_C20_FIRST=%d,%d", s, i))
+	b, err := cmd.Output()
+	f := strings.Split(strings.TrimRight(string(b), "\n"), "\t")
+	id := fatchoy.MakeNodeID(s, i)
+	if err != nil || len(f) != 3 {
+		// the child died: report it as an unparsable, non-hex printed form
+		return List(Uint(uint64(id)), Uint(uint64(id.Service())), Uint(uint64(id.Instance())),
+			Bool(id.IsTypeBackend()), Str("!child process failed"), Bool(false), Uint(0))
+	}
+	var ok, parsed uint64
+	fmt.Sscanf(f[1], "%d", &ok)
+	fmt.Sscanf(f[2], "%d", &parsed)
+	return List(Uint(uint64(id)), Uint(uint64(id.Service())), Uint(uint64(id.Instance())),
+		Bool(id.IsTypeBackend()), Str(f[0]), Bool(ok == 1), Uint(parsed))
+}
+
+func childFirst(spec string) {
+	var s, i int
+	fmt.Sscanf(spec, "%d,%d", &s, &i)
+	_, str, ok, parsed := observe(uint8(s), uint16(i))
+	o := 0
+	if ok {
+		o = 1
+	}
+	fmt.Printf("%s\t%d\t%d\n", str, o, uint64(parsed))
+}
+
 func run(in Sx) Sx {
 	if in.Len() == 1 {
 		return runIDSet(in.At(0))
+	}
+	if in.Len() == 3 {
+		return firstInProcess(uint8(in.At(0).Int64()), uint16(in.At(1).Int64()))
 	}
 	s, i := uint8(in.At(0).Int64()), uint16(in.At(1).Int64())
 	id := fatchoy.MakeNodeID(s, i)
@@ -134,6 +181,10 @@ func concurrentStrings(out *Out, seed uint64) {
 
 func main() {
 	log.SetOutput(io.Discard)
+	if spec := os.Getenv("VERIF_C20_FIRST"); spec != "" {
+		childFirst(spec)
+		return
+	}
 	Main(run, gen)
 }
 
@@ -146,6 +197,11 @@ func gen(a Args, out *Out) {
 		if s >= 128 {
 			out.Count("service>=128")
 		}
+	}
+	// first use in a fresh process, for ids a zero-valued memo or table would "match"
+	for _, p := range [][2]int64{{0, 0}, {0, 1}, {1, 0}, {255, 65535}, {0, 10}, {int64(rng.Intn(256)), int64(rng.Intn(65536))}} {
+		in := Ints(p[0], p[1], 1)
+		out.Case("first-in-process", true, in, run(in))
 	}
 	for s := int64(0); s < 256; s++ {
 		for _, i := range bounds {
